@@ -116,3 +116,16 @@ def run(pid, tier, replay=None):
         registry_family(pid, tier, chk)
         return chk.finish()
     raise tlc.MachineryError("no check for %s" % pid)
+
+
+from . import drive_module as DM
+
+
+def module_family(pid, tier, chk, n=None):
+    quick = tier == "quick"
+    n = n or (250 if quick else 4000)
+    cases = DM.module_cases_random(chk, n)
+    traces, inputs = DM.module_traces(pid, chk, cases)
+    chk.rules.append("%d seeded random nested inputs with styled keys x frameworks x layouts x options through the full pipeline; "
+                     "emitted text parsed, executed and introspected" % n)
+    chk.validate("Trace_Module", traces, inputs, shard=16)
